@@ -266,9 +266,19 @@ def check(prog, rep, tier):
     for p in paths(prog, "CountingCuckooFilter", bd):
         fl_ = [e for e in p.events if e.kind == "call" and e.name == "fromlist" and e.args]
         ex = [e for e in p.events if e.kind == "call" and e.name == "extend" and e.args]
+        fl_ = fl_ or [e for e in p.events if e.kind == "call" and e.name == "extend" and e.args and e.loops and len(e.loops) == 1 and strip_epochs(e.args[0])[0] in ("nary", "comp")
+                      and any(n == C(0) for n in walk(e.args[0]))]
         if fl_ and ex:
             a = strip_epochs(fl_[0].args[0])
-            okd = a[0] == "comp" and a[2] == C(0) and canon(a[3][0][2]) == canon(("call", ("g", "range"), (("bin", "*", ("bin", "-", ("p", "bucket_size"), ("call", ("g", "len"), (fl_[0].loops and ("it", fl_[0].loops[0], ("p", "buckets")) or C(0),), ())), C(2)),), ()))
+            lid = fl_[0].loops[0]
+            want_len = ("bin", "*", ("bin", "-", ("p", "bucket_size"), ("call", ("g", "len"), (("it", lid, ("p", "buckets")),), ())), C(2))
+            okd = False
+            if a[0] == "comp" and a[2] == C(0) and len(a[3]) == 1:
+                okd = canon(a[3][0][2]) == canon(("call", ("g", "range"), (want_len,), ()))
+            elif a[0] == "nary" and a[1] == "*" and ("lst", (C(0),)) in a[2]:
+                rest = [x for x in a[2] if x != ("lst", (C(0),))]
+                got_len = rest[0] if len(rest) == 1 else ("nary", "*", tuple(rest))
+                okd = canon(got_len) == canon(want_len)
             okd = okd and fl_[0].recv[0] == "newb" and fl_[0].recv[3][0] == C("I")
     if okd:
         rep.ok("C06.cuckoo-buckets", "CountingCuckooFilter: (fingerprint, count) uint32 pairs, padded with 2*(bucket_size-len) zeros")
